@@ -27,7 +27,9 @@ Common   == {"assign", "callArg", "returnExpr", "defaultParam", "arrayElem", "ma
              "index", "twoOnLine", "classAttr"}
 PyOnly   == {"kwArg", "tupleElem", "rangeArg", "enumerateArg", "strRepeat", "upperConst", "annUpperConst", "nestedFunc",
              "fstringInterp", "lambdaBody", "ternary", "comprehension", "sliceBound", "unaryMinus",
-             "upperCallArg", "upperFuncBody"}
+             "upperCallArg", "upperFuncBody", "strKeyMul"}
+\* strKeyMul: `y = cfg["timeout"] * 37` - the other operand of `*` merely CONTAINS a string literal (a subscript key); it
+\* is a number, the product is arithmetic, not "string repetition": reportable like binop
 \* upperCallArg / upperFuncBody: the literal is an ARGUMENT of the call, or stands in the BODY of the function, whose
 \* result is bound to an UPPER_CASE name (`TOTAL = compute(37)`, `const HANDLER = () => { return 37; }`): it is not the
 \* constant's definition ("UPPERCASE = value") and stays reportable
